@@ -90,6 +90,7 @@ func runProgram(p *Program) string { //nolint:cyclop,gocognit
 	kit.WaitGoroutines(base, 10*time.Second)
 	var twOut, twIn atomic.Uint32
 	var wrote [2]atomic.Int64
+	var lastSeq0 atomic.Uint32 // the sequence number writer 0 sent last: NACKs ask for numbers just behind it, again and again
 	var accepted [2]atomic.Int64
 	var wg sync.WaitGroup
 	stopAux := make(chan struct{})
@@ -109,6 +110,9 @@ func runProgram(p *Program) string { //nolint:cyclop,gocognit
 				wrote[stream].Add(1)
 				if _, err := writers[stream].Write(&h, kit.FillBytes(int(x.next()%1200), x.next()), interceptor.Attributes{}); err == nil {
 					accepted[stream].Add(1)
+				}
+				if w == 0 {
+					lastSeq0.Store(uint32(h.SequenceNumber))
 				}
 				if p.ForeignSSRC && x.next()%8 == 0 {
 					hf := kit.WithTWCC(rtp.Header{Version: 2, SSRC: 0xEEEE, PayloadType: 97, SequenceNumber: uint16(k)}, twccID, uint16(twOut.Add(1))) //nolint:gosec
@@ -147,7 +151,11 @@ func runProgram(p *Program) string { //nolint:cyclop,gocognit
 				case 0:
 					pkts = append(pkts, &rtcp.ReceiverReport{SSRC: 9, Reports: []rtcp.ReceptionReport{{SSRC: 0x6001, LastSequenceNumber: uint32(k), LastSenderReport: 1, Delay: 2}}}) //nolint:gosec
 				case 1:
-					pkts = append(pkts, &rtcp.TransportLayerNack{SenderSSRC: 9, MediaSSRC: 0x6001 + uint32(x.next()%2), Nacks: []rtcp.NackPair{{PacketID: uint16(k), LostPackets: 7}}}) //nolint:gosec
+					id := uint16(k) //nolint:gosec
+					if x.next()%3 != 0 { // mostly numbers that were sent a moment ago (several requests for one number are in progress at once)
+						id = uint16(lastSeq0.Load()) - uint16(x.next()%6) //nolint:gosec
+					}
+					pkts = append(pkts, &rtcp.TransportLayerNack{SenderSSRC: 9, MediaSSRC: 0x6001 + uint32(x.next()%2), Nacks: []rtcp.NackPair{{PacketID: id, LostPackets: 7}}}) //nolint:gosec
 				case 2: // transport-cc feedback about recently sent numbers
 					n := 8
 					fb := &rtcp.TransportLayerCC{SenderSSRC: 9, MediaSSRC: 0x6001, BaseSequenceNumber: cur - uint16(n), PacketStatusCount: uint16(n), ReferenceTime: uint32(k + 1), FbPktCount: uint8(k), //nolint:gosec
@@ -320,7 +328,7 @@ func allStacks() string {
 }
 
 // the members with goroutines of their own between the application and the transport get more of the cases
-var members = append([]string{"chain", "chain", "chain", "cc-leaky-bucket", "cc-leaky-bucket", "pacing", "nack-responder-small", "nack-responder-small"}, kit.AllNames...)
+var members = append([]string{"chain", "chain", "chain-reversed", "chain-reversed", "cc-leaky-bucket", "cc-leaky-bucket", "pacing", "nack-responder-small", "nack-responder-small"}, kit.AllNames...)
 
 func TestConcurrentPrograms(t *testing.T) {
 	if rp := kit.ReplayFile(); rp != "" {
